@@ -73,6 +73,11 @@ var c15Exprs = []c15Expr{
 	{"node-type-test", false, func(p string) string { return "../" + p + "name/text() = 'a'" }, func(p string) string { return "/" + p + "tgt/text()" }},
 	{"unterminated-literal", false, func(p string) string { return "../" + p + "name = 'a" }, func(p string) string { return "/" + p + "tgt[" + p + "name='a]" }},
 	{"malformed-number", false, func(p string) string { return "../" + p + "name = 1.2.3" }, func(p string) string { return "/" + p + "tgt/1" }},
+	// XPath 1.0 knows four blanks (space, tab, CR, LF); other characters that look like one are not tokens
+	{"form-feed-between-tokens", false, func(p string) string { return "../" + p + "name =\f'a'" }, func(p string) string { return "/" + p + "tgt/\f" + p + "name" }},
+	{"vertical-tab-between-tokens", false, func(p string) string { return "../" + p + "name\v= 'a'" }, func(p string) string { return "/" + p + "tgt\v/" + p + "name" }},
+	{"no-break-space-between-tokens", false, func(p string) string { return "../" + p + "name =\u00a0'a'" }, func(p string) string { return "/" + p + "tgt/\u00a0" + p + "name" }},
+	{"next-line-character-between-tokens", false, func(p string) string { return "../" + p + "name = 'a'\u0085" }, func(p string) string { return "\u0085/" + p + "tgt/" + p + "name" }},
 	{"relative-descendant-path", true, func(p string) string { return p + "name" }, nil},
 	// NameTest ::= '*' | NCName ':' '*' | QName: the prefix of a wildcard is a prefix like any other
 	{"prefixed-wildcard", true, func(p string) string { return "count(../" + p + "*) > 0" }, nil},
